@@ -202,6 +202,29 @@ def short_write_scenarios(ctx, build, stats, found):
                     ctx.violation("counterexample", "disk (%s): a Write cut short by the file-size limit returned normally but the block "
                                   "(or a neighbour) does not hold what the register array holds" % impl,
                                   {"proto": "disk", "impl": impl, "ops": ops, "scenario": "short-write"}, expected=want, observed=rr)
+    # the read loop (Props/C09 readto_panic_prefix): an image truncated behind the disk's back inside block 2 makes pread return
+    # `cut` bytes and then 0; ReadTo panics having overwritten exactly a prefix of the caller's used buffer
+    rn = ragree = 0
+    for cut in (0, 1, 100, 3000, 4095):
+        ops = ["new 4", "buf 4096 7", "write 2 0", "extrunc %d" % (2 * 4096 + cut), "buf 4096 5", "readto 2 1", "peek 1"]
+        mm = C.run([C.DRIVER, "disk", "sw"], input="sr 4096 7 5 %s0\n" % ("%d " % cut if cut else ""), env=os.environ.copy()).stdout.split()
+        for impl in ("file", "afile", "gfile"):
+            scratch = C.scratch()
+            try:
+                rr = run_real(impl, ops, scratch)
+            finally:
+                shutil.rmtree(scratch, ignore_errors=True)
+            rn += 1
+            stats["ops"] += len(ops)
+            if len(rr) != len(ops) or any(r.startswith("harness-error") or r in ("bad-op", "unsupported") for r in rr):
+                raise C.Infra("C09 short-read scenario could not be set up (%s): %s" % (impl, rr))
+            if len(mm) == 2 and [rr[5], rr[6]] == [mm[0], "bytes 4096 " + mm[1]]:
+                ragree += 1
+            else:
+                build.broken.append({"kind": "correspondence", "name": "disk: Lean ShortWrite read-loop model vs %s" % impl,
+                                     "detail": "ReadTo of a block of which only %d bytes exist: the model says %s, the code %s" % (cut, mm, rr[5:])})
+    stats["short_read_runs"] = rn
+    stats["short_read_model_agreements"] = ragree
     stats["short_write_runs"] = n
     stats["short_write_model_agreements"] = agree
     return hit
@@ -241,6 +264,8 @@ def finish_cov(ctx, stats):
         "per_stream": stats["per_stream"],
         "short_write_runs": stats.get("short_write_runs", 0),
         "short_write_model_agreements": stats.get("short_write_model_agreements", 0),
+        "short_read_runs": stats.get("short_read_runs", 0),
+        "short_read_model_agreements": stats.get("short_read_model_agreements", 0),
         "reply_kinds_observed": dict(stats["replies"]),
         "spec_disagreements": stats["spec_disagreements"],
         "model_disagreements": stats["model_disagreements"],
